@@ -380,19 +380,24 @@ def _check_case(case):
                 return f'error_probability of the same error changed from {a!r} to {b!r} on a repeated call'
         return None
     if kind == 'sampling':
+        # the error generate() returns (scripted variates when the mechanism is one uniform per qubit, a
+        # real generator otherwise) must have error_probability = product of the stated per-qubit
+        # probabilities, and that must be positive: nothing of probability 0 is ever sampled
         us = [float(parse_rat(u)) for u in case['us']]
-        e = [int(x) for x in em.generate(code, float(p), rng=StubRng(us))]
-        vol = Fraction(1)
-        for i in range(n):
-            iv = cum_intervals(dists[i])
-            u = Fraction(us[i])
-            s = [t for t in LETTERS if iv[t][0] <= u < iv[t][1]]
-            s = s[0] if s else 'Z'
-            vol *= iv[s][1] - iv[s][0]
+        try:
+            e = [int(x) for x in em.generate(code, float(p), rng=StubRng(us))]
+        except N.StubMismatch:
+            e = [int(x) for x in em.generate(code, float(p), rng=np.random.default_rng(len(us)))]
+        want = stated_probability(dists, e)
+        if want == 0:
+            return f'generate returned the error {vec(e)}, which the stated channel gives probability 0'
         got = impl_eprob(code, em, p, e)
-        if not close(got, vol):
-            return f'error sampled from a box of volume {float(vol)!r} has error_probability {float(got)!r}'
+        if not close(got, want):
+            return f'sampled error {vec(e)} has stated probability {float(want)!r} but error_probability {float(got)!r}'
         return None
+    if kind == 'sample-stat':
+        # consistency with the sampling distribution, mechanism-free (see harness/props/c07.py)
+        return N.sampling_statistics(code, em, float(p), dists, case['N'], case['seed'])
     if kind == 'accept':
         prev = [int(c) for c in case['previous']]
         idx, letter = case['index'], case['letter']
@@ -454,6 +459,20 @@ def oracle_cases(ctx, deep):
                 cand = [c for c in 'XYZ' if dists[idx][c] != 0]
                 cases.append(dict(base, kind='accept', previous=vec(prev), index=idx,
                                   letter=cand[int(rng.integers(len(cand)))]))
+    # error_probability is consistent with what generate() samples: frequencies against the stated channel
+    stat = [(('Toric2DCode', (2, 2)), Fraction(1, 32), (Fraction(1, 8), Fraction(1, 8), Fraction(3, 4))),
+            (('RotatedPlanar2DCode', (3, 3)), Fraction(1, 4), (Fraction(3, 4), Fraction(0), Fraction(1, 4)))]
+    if deep:
+        stat += [(('Toric3DCode', (2, 2, 2)), Fraction(1, 64), (Fraction(5, 8), Fraction(1, 4), Fraction(1, 8))),
+                 (('Planar2DCode', (3, 2)), Fraction(1, 1024), (Fraction(1, 4), Fraction(1, 4), Fraction(1, 2))),
+                 (('Toric2DCode', (2, 3)), Fraction(7, 8), (Fraction(1, 8), Fraction(5, 8), Fraction(1, 4)))]
+    for (name, size), p, r in stat:
+        opts = N.deformation_options(name)
+        for dname, dkw in (opts if deep else [opts[0], opts[-1]]):
+            cases.append({'code': name, 'size': list(size), 'deformation': dname, 'kwargs': dkw, 'p': rs(p),
+                          'r': [rs(x) for x in r], 'kind': 'sample-stat',
+                          'N': 60000 if p < Fraction(1, 256) else (20000 if deep else 8000),
+                          'seed': int(rng.integers(0, 2 ** 31))})
     # large codes: log form where the plain product underflows
     for name, size in ([('Toric2DCode', (24, 24)), ('Toric3DCode', (7, 7, 7))] + ([('Toric2DCode', (30, 31))] if deep else [])):
         for p, r in ((Fraction(1, 2), (Fraction(1, 4), Fraction(1, 4), Fraction(1, 2))),
